@@ -28,7 +28,8 @@ class HarnessGen:
         self.K = K
         self.both_calls = True
         self.force_encode_side = False
-        self.rr = RustRef(mdl, acap=max(L, 2), pcap=max(L, 2), ocap=4 * L + 16)
+        msc = max([f.count for fs in mdl.fields.values() for f in fs if f.kind == 'array' and f.count is not None] + [0])
+        self.rr = RustRef(mdl, acap=max(L, 2, msc), pcap=max(L, 2), ocap=4 * L + 16)
         self.rr.kdraw = self.rr.pdraw = K
         self.rr.mcmp = min(self.rr.ocap, 24)
 
